@@ -83,6 +83,7 @@ def cases(tier, seed=0):
   from checks import eam_api as _ea
   cs += _ea.surplus_cases('setfl', tier)
   cs += _ea.after_failure_cases('setfl', tier)
+  cs += _ea.shared_and_undeclared_cases('setfl', tier)
   return cs
 
 
